@@ -60,6 +60,20 @@ CHECKS = {
   design_ref="DESIGN.md 3.6, 6 (C02)",
   note="Trusted: TLC, the vst helper, finishing order forced by per-stage linger; hangs are judged by a 60 s watchdog.",
   technique="TLA+ pipeline model checked by TLC (safety + liveness); TLC-enumerated scenarios replayed on the binary; strace traces validated by TLC"),
+ "C04": dict(
+  category="model_checking",
+  text="The descriptor-table semantics of redirections is written as a left-to-right fold (spec/Redirect.tla); TLC checks theorems "
+       "of that reference (every written token lands in exactly one place, a command without redirections touches no file, "
+       "2>&1 >f sends stderr where stdout was) for every command with up to 2 (thorough 3) redirections from {>, >>, 2>, 2>>, 2>&1, "
+       "1>&2, <, <<<} over present / absent / unopenable targets x {external program, builtin writing stdout, builtin writing "
+       "stderr} x {only, first, last pipeline stage}, and emits each with the prescribed outcome; every case is rendered with "
+       "random spelling (attached / spaced, 1> / >, >&2 / 1>&2), run by the real binary and judged by file contents, captured "
+       "stdout / stderr of the whole line, what the next stage read, whether the command ran and $?, followed by a command that "
+       "checks nothing leaked. Commands with 4 redirections come from TLC simulation.",
+  design_ref="DESIGN.md 3.3, 6 (C04)",
+  note="Trusted: TLC, helper vio (single write(2) per stream), builtin reference text taken from an unredirected run; a file is "
+       "opened at most once per generated command; diagnostics of the shell may appear on whatever stderr currently is.",
+  technique="TLA+ reference semantics of redirections; TLC-enumerated commands replayed on the binary, outcomes compared with the fold"),
  "C06": dict(
   category="model_checking",
   text="TLC explores every interleaving of child status changes (with Linux's report coalescing), foreground-wait iterations, "
